@@ -235,6 +235,9 @@ def arith_axioms(exprs):
             r, nm, a, b = ax
             z = z3.FPVal(0.0, r.sort())
             okab = z3.And(z3.Not(z3.fpIsNaN(a)), z3.Not(z3.fpIsNaN(b)), z3.Not(z3.fpIsInf(a)), z3.Not(z3.fpIsInf(b)))
+            if nm in ('sub', 'add'):
+                two = z3.FPVal(2.0, r.sort()); four = z3.FPVal(4.0, r.sort())
+                out.append(z3.Implies(z3.And(okab, z3.fpLEQ(z3.fpAbs(a), two), z3.fpLEQ(z3.fpAbs(b), two)), z3.And(z3.Not(z3.fpIsInf(r)), z3.fpLEQ(z3.fpAbs(r), four))))
             if nm == 'sub':
                 out.append(z3.Implies(okab, z3.And(z3.Not(z3.fpIsNaN(r)), z3.fpIsZero(r) == z3.fpEQ(a, b), z3.fpLT(r, z) == z3.fpLT(a, b), z3.fpGT(r, z) == z3.fpGT(a, b))))
             elif nm == 'add':
@@ -324,12 +327,18 @@ def model_values(model, vars_):
     return mv
 
 
-def run_shapes(check, worker, shapes, workers=None):
+def make_pool(workers=None):
     import multiprocessing as mp
     workers = workers or int(os.environ.get('VERIF_WORKERS', '16'))
     worker_init()
+    return mp.Pool(workers, initializer=worker_init)
+
+
+def run_shapes(check, worker, shapes, workers=None, pool=None):
+    if pool is None:
+        pool = make_pool(workers)
     check.info['mir_source_hash'] = _G['keys']
-    with mp.Pool(workers, initializer=worker_init) as pool:
+    with pool:
         results = pool.map(worker, shapes, chunksize=1)
     for r in results:
         check.functions.update({re.sub(r'<impl at [^>]*?([\w.]+:\d+):\d+: \d+:\d+>', r'<impl@\1>', k): v for k, v in r['fns'].items()})
@@ -458,3 +467,43 @@ def struct_eq(m, a, b, depth=0):
     if isinstance(a, Opaque):
         return a.kind == b.kind
     return a is b
+
+
+def contract_axioms(exprs):
+    """instances of the kernel lemmas for the uninterpreted lerp / easing applications occurring in exprs:
+    L-ease01 (C13: every built-in easing maps 0 to 0 and 1 to 1 exactly) and L-lerp01 (C14: lerp(a,b,0)=a, lerp(a,b,1)=b)"""
+    seen = set(); out = []
+    lnames = {f.name() for f in L_UF.values()}
+    def walk(e):
+        k = e.get_id()
+        if k in seen: return
+        seen.add(k)
+        if z3.is_app(e):
+            nm = e.decl().name()
+            if nm == 'EASE':
+                x = e.arg(1)
+                out.append(z3.Implies(z3.fpIsZero(x), z3.fpIsZero(e)))
+                out.append(z3.Implies(z3.fpIsZero(x), z3.Not(z3.fpIsNegative(e)) == z3.Not(z3.fpIsNegative(x))))
+                out.append(z3.Implies(x == ONE, e == ONE))
+            elif nm in lnames:
+                a, b, w = e.arg(0), e.arg(1), e.arg(2)
+                out.append(z3.Implies(z3.fpIsZero(w), e == a))
+                out.append(z3.Implies(w == ONE, e == b))
+        for c in e.children(): walk(c)
+    for e in exprs: walk(e)
+    return out
+
+
+def decide_with_contracts(assertions, timeout_ms=20000):
+    ab = [abstract_arith(a) for a in assertions]
+    extra = arith_axioms(ab) + contract_axioms(ab)
+    st, model = inproc_unsat(ab + extra, timeout_ms)
+    if st == 'unsat':
+        return st, None
+    ex = list(assertions) + contract_axioms(assertions)
+    if st == 'sat':
+        fixes = [v == model.eval(v, model_completion=True) for v in free_consts(assertions) if (z3.is_fp(v) or z3.is_bv(v) or z3.is_bool(v))]
+        st2, model2 = inproc_unsat(ex + fixes, timeout_ms)
+        if st2 == 'sat':
+            return 'sat', model2
+    return inproc_unsat(ex, timeout_ms)
